@@ -1950,7 +1950,11 @@ func opcodeCheckSig(op *ParsedOpcode, t *thread) error {
 	// The signature actually needs needs to be longer than this, but at
 	// least 1 byte is needed for the hash type below.  The full length is
 	// checked depending on the script flags and upon parsing the signature.
+	// The public key must be well encoded even when the signature is empty.
 	if len(fullSigBytes) < 1 {
+		if err = t.checkPubKeyEncoding(pkBytes); err != nil {
+			return err
+		}
 		t.dstack.PushBool(false)
 		return nil
 	}
